@@ -738,3 +738,35 @@ impl DecodeBeatmap for HitObjects {
         Ok(())
     }
 }
+
+/// Verification hooks: thin forwarding wrappers around private items of this
+/// module; compiled only with `--cfg maxohn_rosu_map_verif`.
+#[cfg(maxohn_rosu_map_verif)]
+#[doc(hidden)]
+pub mod verif_hooks {
+    use super::{Events, GameMode, HitObject, HitObjectsState, ParseHitObjectsError, Pos};
+
+    pub fn convert_path_str(
+        state: &mut HitObjectsState,
+        point_str: &str,
+        offset: Pos,
+    ) -> Result<(), ParseHitObjectsError> {
+        state.convert_path_str(point_str, offset)
+    }
+
+    pub fn point_split_len(state: &HitObjectsState) -> usize {
+        state.point_split.len()
+    }
+
+    pub fn post_process_breaks(hit_objects: &mut [HitObject], events: &Events) {
+        HitObjectsState::post_process_breaks(hit_objects, events);
+    }
+
+    pub fn get_precision_adjusted_beat_len(
+        slider_velocity: f64,
+        beat_len: f64,
+        mode: GameMode,
+    ) -> f64 {
+        super::get_precision_adjusted_beat_len(slider_velocity, beat_len, mode)
+    }
+}
